@@ -61,7 +61,7 @@ type Case struct {
 
 func cond(o Op) func(interface{}) bool {
 	return func(v interface{}) bool {
-		x, ok := v.(int64)
+		x, ok := unval(v)
 		if !ok {
 			// the condition is handed something that is not a stored value
 			panic(fmt.Sprintf("condition called on %T", v))
@@ -78,6 +78,33 @@ func cond(o Op) func(interface{}) bool {
 
 func cp(p []string) []string { return append([]string{}, p...) }
 
+// box is an uncomparable value type (it has a slice field): in every second case the
+// stored values are boxes, so that code comparing stored values with == (instead of
+// treating them as opaque) panics, as the tree's contract allows any interface{} value.
+type box struct {
+	n   int64
+	pad []byte
+}
+
+var boxed bool
+
+func mkval(x int64) interface{} {
+	if boxed {
+		return box{n: x, pad: []byte{1}}
+	}
+	return x
+}
+
+func unval(v interface{}) (int64, bool) {
+	switch x := v.(type) {
+	case int64:
+		return x, !boxed
+	case box:
+		return x.n, boxed
+	}
+	return 0, false
+}
+
 func apply(t *ctree.Tree, slots *[nslots]*ctree.Leaf, o Op) (res Obs) {
 	defer func() {
 		if r := recover(); r != nil {
@@ -86,7 +113,7 @@ func apply(t *ctree.Tree, slots *[nslots]*ctree.Leaf, o Op) (res Obs) {
 	}()
 	visit := func(dst *[]LeafObs) ctree.VisitFunc {
 		return func(path []string, _ *ctree.Leaf, val interface{}) error {
-			x, ok := val.(int64)
+			x, ok := unval(val)
 			if !ok {
 				panic(fmt.Sprintf("visited a non-value %T", val))
 			}
@@ -103,6 +130,8 @@ func apply(t *ctree.Tree, slots *[nslots]*ctree.Leaf, o Op) (res Obs) {
 			return Obs{Kind: "kind", NK: "absent"}
 		case int64:
 			return Obs{Kind: "kind", NK: "leaf", V: x}
+		case box:
+			return Obs{Kind: "kind", NK: "leaf", V: x.n}
 		default:
 			return Obs{Kind: "kind", NK: "branch"}
 		}
@@ -110,7 +139,7 @@ func apply(t *ctree.Tree, slots *[nslots]*ctree.Leaf, o Op) (res Obs) {
 	switch o.K {
 	case "add":
 		p := cp(o.P)
-		err := t.Add(p, o.V)
+		err := t.Add(p, mkval(o.V))
 		for i := range p { // the tree must not depend on the caller's slice afterwards
 			p[i] = "scribbled"
 		}
@@ -170,7 +199,7 @@ func apply(t *ctree.Tree, slots *[nslots]*ctree.Leaf, o Op) (res Obs) {
 	case "walkdeleted":
 		var vs []int64
 		t.WalkDeleted(o.P, cond(o), func(v interface{}) {
-			x, ok := v.(int64)
+			x, ok := unval(v)
 			if !ok {
 				panic(fmt.Sprintf("delete callback called on %T", v))
 			}
@@ -229,7 +258,7 @@ func apply(t *ctree.Tree, slots *[nslots]*ctree.Leaf, o Op) (res Obs) {
 		if slots[o.S] == nil {
 			return Obs{Kind: "bool", B: false}
 		}
-		slots[o.S].Update(o.V)
+		slots[o.S].Update(mkval(o.V))
 		return Obs{Kind: "bool", B: true}
 	case "hvalue":
 		if slots[o.S] == nil {
@@ -254,6 +283,7 @@ func apply(t *ctree.Tree, slots *[nslots]*ctree.Leaf, o Op) (res Obs) {
 
 func run(ops []Op) []Obs {
 	t := &ctree.Tree{}
+	boxed = len(ops)%2 == 0
 	var slots [nslots]*ctree.Leaf
 	out := make([]Obs, len(ops))
 	for i := range out {
